@@ -1,6 +1,6 @@
 (* C24 — property theorems (statements only; proofs by [exact] of lemmas in Proofs.v). *)
 From Coq Require Import ZArith QArith List Bool.
-From OMV Require Import Base.Val C01.Model C01.Proofs C24.Model C24.Proofs.
+From OMV Require Import Base.Val C01.Model C01.Proofs C24.Model C24.Proofs C24.ProofsCyclic.
 Import ListNotations.
 Open Scope Q_scope.
 
@@ -70,3 +70,22 @@ Theorem C24_linear_instance :
     (forall k b xs, is_zero b -> Forall is_zero xs -> is_zero (lin_f coef diag k b xs)).
 Proof. exact lin_instance. Qed.
 Print Assumptions C24_linear_instance.
+
+(* The cyclic case (feedback connections, coupled groups): no execution order at all.  For ANY linear system
+   M x = b of any size: if the seed is supported in D, D is closed downstream and A upstream with respect to the
+   non-zero pattern of M, and the A-block of M is certified regular (left-inverse certificate of M with the rows
+   outside A replaced by unit rows), then the solution of the system restricted to R = D /\ A (unknowns outside R
+   zero, equations outside R dropped) equals the full solution on every system in A. *)
+Theorem C24_pruned_eq_full_cyclic :
+  forall (n : nat) (L M : mat) (b x xp : vec) (inD inA : nat -> bool),
+    wf_mat n M -> length M = n -> length x = n -> length xp = n -> length b = n ->
+    (forall k j, inA k = true -> inA j = false -> nth j (nth k M []) 0 == 0) ->
+    (forall k j, inD j = true -> inD k = false -> nth j (nth k M []) 0 == 0) ->
+    (forall k, inD k = false -> nth k b 0 == 0) ->
+    vec_eq (mat_vec M x) b ->
+    (forall k, (k < n)%nat -> inD k && inA k = true -> dot (nth k M []) xp == nth k b 0) ->
+    (forall k, inD k && inA k = false -> nth k xp 0 == 0) ->
+    left_inverse_cert L (maskA n inA M) n ->
+    forall k, inA k = true -> nth k xp 0 == nth k x 0.
+Proof. exact pruned_eq_full_cyclic_certified. Qed.
+Print Assumptions C24_pruned_eq_full_cyclic.
